@@ -75,6 +75,19 @@ def normalise_ite(node):
     for k, v in list(node.items()):
         if isinstance(v, (dict, list)):
             node[k] = normalise_ite(v)
+    if node.get("k") == "seq":
+        # `if (c) return a;` directly followed by `return b;`  ==  `return c ? a : b;` (an early-return guard)
+        ss = node.get("s", [])
+        i = 0
+        while i + 1 < len(ss):
+            g, r = ss[i], ss[i + 1]
+            if (isinstance(g, dict) and g.get("k") == "if" and g.get("e") is None and g.get("init") is None and g.get("cvar") is None
+                    and _single_return(g.get("t")) is not None and isinstance(r, dict) and r.get("k") == "ret" and r.get("e") is not None):
+                ss[i:i + 2] = [{"k": "ret", "l": g.get("l"), "e": {"k": "cond", "c": g["c"], "t": _single_return(g["t"])["e"], "f": r["e"], "l": g.get("l"),
+                                                                   "ty": (r["e"] or {}).get("ty")}}]
+                i = max(i - 1, 0)      # a chain of guards folds from the bottom up
+                continue
+            i += 1
     if node.get("k") == "if" and node.get("e") is not None and node.get("init") is None and node.get("cvar") is None:
         ra, rb = _single_return(node.get("t")), _single_return(node.get("e"))
         if ra is not None and rb is not None:
@@ -135,6 +148,11 @@ def normalise_while(node):
                     loop = {"k": "for", "l": w.get("l"), "init": d, "c": w.get("c"), "inc": strip(_stmt_expr(body[-1])), "b": {"k": "seq", "l": w["b"].get("l"), "s": body[:-1]}}
                     ss[i - 1:i + 1] = [loop]
                     continue
+                if name and any(x.get("k") == "var" and x.get("n") == name for x in walk(w.get("c") or {})):
+                    # `T n = a; while (n) { ... }`  ==  `for (T n = a; n; ) { ... }` (the step, if any, stays where it is in the body)
+                    loop = {"k": "for", "l": w.get("l"), "init": d, "c": w.get("c"), "inc": None, "b": w["b"]}
+                    ss[i - 1:i + 1] = [loop]
+                    continue
             i += 1
     return node
 
@@ -156,7 +174,9 @@ def const_local_defs(body):
             l = strip(x.get("e"))
             if isinstance(l, dict) and l.get("k") == "var":
                 assigned.add(l.get("n"))
-    return {n: vs[0]["init"] for n, vs in decl.items() if len(vs) == 1 and vs[0].get("init") is not None and n not in assigned and not vs[0].get("ref")}
+    # (a reference local is looked through only when it is a reference to const: nothing is written through it)
+    return {n: vs[0]["init"] for n, vs in decl.items() if len(vs) == 1 and vs[0].get("init") is not None and n not in assigned
+            and (not vs[0].get("ref") or vs[0].get("const"))}
 
 
 def subst_locals(e, defs, depth=0):
